@@ -36,7 +36,7 @@ def run(tier):
     seen = set(); kinds = {'depth': 0, 'bytes': 0}; guards = {}
     for p in paths:
         res = results[p]
-        for b in res['broken']: R.broke(b)
+        for b in res['broken']: R.broke_at(p, b)
         for k, ok in res['guards']: guards[k.split('<')[0]] = ok if guards.get(k.split('<')[0], True) else False
         for kind, disp, probs, n in res['items']:
             if disp in seen: continue
